@@ -364,6 +364,15 @@ def _end_of_instant(self):
         leaked = [o for o, ev in self.open_toks[nid] if o not in awaited]
         if leaked:
             self.instant_viol.append(("C10", "leaked-token", f"{kind} {nid} at t={now}: reservation tokens {leaked} are neither used, cancelled nor awaited"))
+            # a GRANTED retrieval that nobody will ever use keeps its item out of everybody's reach: the item is in no place the flow can
+            # still take it from (C03: "… every generated item ends up received by a sink or counted as discarded")
+            for o, ev in self.open_toks[nid]:
+                if o in leaked and getattr(ev, "triggered", False):
+                    st = getattr(ev, "resourcename", None)
+                    if st is not None and any(ev is x for x in getattr(st, "reservations_get", [])):
+                        self.instant_viol.append(("C03", "stranded-item", f"{kind} {nid} at t={now}: the granted retrieval {o} is neither used, cancelled nor awaited — "
+                                                  f"the item bound to it stays in its edge for ever, out of every node's reach"))
+                        break
         # (2) a token that is granted must have been acted upon within the instant
         for (last, toks, pk) in waits.values():
             for o, ev in self.open_toks[nid]:
